@@ -102,6 +102,32 @@ Qed.
 Theorem C33_window_constants : pv_plomin = 10 /\ pv_vanrossem = 11 /\ pv_dijkstra = 12 /\ pv_conway = 9.
 Proof. exact pv_constants. Qed.
 
+(* common.VerifyTransaction hands every rule of the era list the ledger state it
+   was given: over the whole Conway / Dijkstra list, whatever the shape of the
+   transaction (numbers of inputs, reference inputs, collateral, outputs,
+   certificates) and whatever the other rules are, acceptance implies that the
+   withdrawal rule accepts on that very ledger state; and when the other rules
+   accept, the verdict of the list IS the withdrawal rule's verdict *)
+Theorem C33_verify_transaction_same_state : forall other era t ls, In era gated_eras ->
+  verify_tx (era_rule_list other era) t ls = ROk -> withdrawals_rule t ls = ROk.
+Proof.
+  intros other era t ls He V. destruct (gated_has_rule era He) as (rs & Hrs & Hex).
+  unfold era_rule_list in V. rewrite Hrs in V. rewrite verify_tx_ok in V.
+  apply existsb_exists in Hex. destruct Hex as (n & Hin & Hn).
+  specialize (V (rule_sem other n) (in_map _ _ _ Hin)). unfold rule_sem in V. now rewrite Hn in V.
+Qed.
+Print Assumptions C33_verify_transaction_same_state.
+
+Theorem C33_verify_transaction_projects : forall other era t ls, In era gated_eras ->
+  (forall n, String.eqb n n_withdrawals = false -> other n t ls = ROk) ->
+  verify_tx (era_rule_list other era) t ls =
+  conway_withdrawals (v_versioned t) (v_pv t) (v_valid t) ls (v_ws t).
+Proof.
+  intros other era t ls He Ho. destruct (gated_has_rule era He) as (rs & Hrs & Hex).
+  unfold era_rule_list. rewrite Hrs, (verify_tx_projects other rs t ls Ho), Hex. reflexivity.
+Qed.
+Print Assumptions C33_verify_transaction_projects.
+
 (* non-vacuity *)
 Example C33_ex_pv10 : conway_withdrawals true 10 true true [mk_wd 0 5%Z true 0] = RNotDelegated.
 Proof. reflexivity. Qed.
